@@ -70,6 +70,40 @@ def guided_history(rng, length, universe):
     return ops
 
 
+def observers_disagree(st_line):
+    """None, or what is inconsistent in one dump `st r=.. n=.. m=.. args=id:label,.. atts=a>b,.. from=l:x.y,.. to=l:x.y,..`"""
+    kvs = dict(t.split("=", 1) for t in st_line.split(" ") if "=" in t)
+    if not all(k in kvs for k in ("n", "m", "args", "atts", "from", "to")):
+        return None
+    args = [x for x in kvs["args"].split(",") if x]
+    atts = [x for x in kvs["atts"].split(",") if x]
+    if int(kvs["n"]) != len(args):
+        return "n_arguments: %s but %d arguments are iterated" % (kvs["n"], len(args))
+    if int(kvs["m"]) != len(atts):
+        return "n_attacks: %s but iter_attacks yields %d" % (kvs["m"], len(atts))
+    if len(set(atts)) != len(atts):
+        return "duplicate: an attack is listed twice by iter_attacks"
+    labels = set(a.split(":")[1] for a in args)
+    ids = [a.split(":")[0] for a in args]
+    if len(set(ids)) != len(ids):
+        return "ids: two live arguments share an id"
+    fr, to = set(), set()
+    for row, acc, mk in ((kvs["from"], fr, lambda l, x: "%s>%s" % (l, x)), (kvs["to"], to, lambda l, x: "%s>%s" % (x, l))):
+        for ent in [x for x in row.split(",") if x]:
+            l, xs = ent.split(":")
+            for x in [y for y in xs.split(".") if y]:
+                if mk(l, x) in acc:
+                    return "rows: an attack is listed twice in a from / to row"
+                acc.add(mk(l, x))
+    if fr != set(atts) or to != set(atts):
+        return "rows: iter_attacks_from / iter_attacks_to do not list the attacks of iter_attacks"
+    for a in atts:
+        x, y = a.split(">")
+        if x not in labels or y not in labels:
+            return "dangling: an attack involves an argument that is not in the framework"
+    return None
+
+
 class C12(Property):
     id = "C12"
     families = ["store"]
@@ -120,6 +154,14 @@ class C12(Property):
         if verdict and verdict[0] != "verdict ok":
             # the model (which mirrors the code) violates the set model; confirmed on the implementation below
             pass
+        # the observers of the implementation must agree with each other after every operation (a clause of the property that
+        # needs no reference: counts = iteration, rows from / to = the attack list, no attack listed twice)
+        for k, l in enumerate(ist):
+            bad = observers_disagree(l)
+            if bad:
+                fs.append(Finding("input", case_line, "after operation %d the observers of the framework disagree: %s" % (k, bad),
+                                  "store/%s · observers disagree (%s)" % (route, bad.split(":")[0])))
+                return fs
         # conformance of the implementation itself against the set model is established through the
         # model: impl == model (all observers) and model refines the set model.
         if ist != mst:
